@@ -208,7 +208,9 @@ def FrameInv (nStr nLibs nNs : Nat) (subc : Nat → Nat) (t : FrameTable) : Prop
   t.func.length = t.keys.length ∧ t.cat.length = t.keys.length ∧ t.sub.length = t.keys.length ∧
   t.line.length = t.keys.length ∧ t.col.length = t.keys.length ∧ t.addr.length = t.keys.length ∧
   t.nsym.length = t.keys.length ∧ t.depth.length = t.keys.length ∧
-  AllBelow t.func t.funcs.keys.length ∧ SubsOk subc t.cat t.sub ∧ OptBelow t.nsym nNs
+  AllBelow t.func t.funcs.keys.length ∧ SubsOk subc t.cat t.sub ∧ OptBelow t.nsym nNs ∧
+  -- frame keys are interned once (`FastIndexSet`)
+  t.keys.Nodup
 
 def FrameOk (nStr nLibs nNs : Nat) (subc : Nat → Nat) (f : Frame) : Prop :=
   f.name < nStr ∧ (∀ x, f.file = some x → x < nStr) ∧ f.sub < subc f.cat ∧
@@ -236,7 +238,16 @@ theorem FrameTable.indexFor_spec (t : FrameTable) (f : Frame) (g : GlobalLibs) (
   · simp only [hi, if_true]
     exact ⟨_, _, _, rfl, hs, Nat.le_refl _, ht, hi, Nat.le_refl _⟩
   · simp only [hi, if_false]
-    obtain ⟨a1, a2, a3, a4, a5, a6, a7, a8, a9, a10, a11, a12, a13⟩ := ht
+    obtain ⟨a1, a2, a3, a4, a5, a6, a7, a8, a9, a10, a11, a12, a13, a14⟩ := ht
+    have hnd : (t.keys ++ [f]).Nodup := by
+      rw [List.nodup_append]
+      refine ⟨a14, by simp, ?_⟩
+      intro a ha b hb
+      simp only [List.mem_singleton] at hb
+      subst hb
+      intro he
+      subst he
+      exact hi (List.idxOf_lt_length_of_mem ha)
     have hk : FuncKeyOk st.n g.used.length f.funcKey := by
       refine ⟨hf.1, hf.2.1, ?_⟩
       intro l hl
@@ -254,20 +265,20 @@ theorem FrameTable.indexFor_spec (t : FrameTable) (f : Frame) (g : GlobalLibs) (
     | none =>
       refine ⟨_, _, _, rfl, hs', hn, ?_, by simp, by simp⟩
       exact ⟨hfn', hr', by simp [a3], by simp [a4], by simp [a5], by simp [a6], by simp [a7],
-        by simp [a8], by simp [a9], by simp [a10], hfunc, hsub, a13.append_one (by simp)⟩
+        by simp [a8], by simp [a9], by simp [a10], hfunc, hsub, a13.append_one (by simp), hnd⟩
     | some n =>
       have hn' := hf.2.2.2 n hnat
       simp only [hn'.1, if_true]
       refine ⟨_, _, _, rfl, hs', hn, ?_, by simp, by simp⟩
       exact ⟨hfn', hr', by simp [a3], by simp [a4], by simp [a5], by simp [a6], by simp [a7],
-        by simp [a8], by simp [a9], by simp [a10], hfunc, hsub, a13.append_one hn'.2⟩
+        by simp [a8], by simp [a9], by simp [a10], hfunc, hsub, a13.append_one hn'.2, hnd⟩
 
 theorem FrameInv.mono {nStr nLibs nNs nStr' nLibs' nNs' : Nat} {subc subc' : Nat → Nat} {t : FrameTable}
     (h : FrameInv nStr nLibs nNs subc t) (h1 : nStr ≤ nStr') (h2 : nLibs ≤ nLibs') (h3 : nNs ≤ nNs')
     (h4 : ∀ c, subc c ≤ subc' c) : FrameInv nStr' nLibs' nNs' subc' t := by
-  obtain ⟨a1, a2, a3, a4, a5, a6, a7, a8, a9, a10, a11, a12, a13⟩ := h
+  obtain ⟨a1, a2, a3, a4, a5, a6, a7, a8, a9, a10, a11, a12, a13, a14⟩ := h
   exact ⟨a1.mono h1 (Nat.le_refl _), a2.mono h1 h2, a3, a4, a5, a6, a7, a8, a9, a10, a11,
-    fun cs hcs => Nat.lt_of_lt_of_le (a12 cs hcs) (h4 _), a13.mono h3⟩
+    fun cs hcs => Nat.lt_of_lt_of_le (a12 cs hcs) (h4 _), a13.mono h3, a14⟩
 
 /-! ### native symbols -/
 
@@ -308,24 +319,35 @@ theorem NativeSymbols.indexFor_spec (ns : NativeSymbols) (lib : Nat) (sym : Sym)
 /-- every prefix points to an earlier row -/
 def PrefixOk (l : List (Option Nat)) : Prop := ∀ (i p : Nat), l[i]? = some (some p) → p < i
 
+/-- the index map agrees with the rows, and every row can be found through it (so no row is stored
+twice): the stack table is a faithful trie of the call stacks -/
+def StCanon (st : StackTable) : Prop :=
+  (∀ kv ∈ st.index, st.prefixes[kv.2]? = some kv.1.1 ∧ st.frames[kv.2]? = some kv.1.2) ∧
+  (∀ (v : Nat) (pre : Option Nat) (f : Nat), st.prefixes[v]? = some pre → st.frames[v]? = some f →
+    alookup st.index (pre, f) = some v)
+
+theorem StCanon.empty : StCanon {} :=
+  ⟨fun _ h => (nomatch h), by intro v pre f h; simp at h⟩
+
 def StInv (nFrames : Nat) (st : StackTable) : Prop :=
   st.frames.length = st.prefixes.length ∧ AllBelow st.frames nFrames ∧ PrefixOk st.prefixes ∧
-  MapBelow st.index st.prefixes.length
+  MapBelow st.index st.prefixes.length ∧ StCanon st
 
 theorem StInv.mono {n n' : Nat} {st : StackTable} (h : StInv n st) (hn : n ≤ n') : StInv n' st :=
-  ⟨h.1, h.2.1.mono hn, h.2.2.1, h.2.2.2⟩
+  ⟨h.1, h.2.1.mono hn, h.2.2.1, h.2.2.2.1, h.2.2.2.2⟩
 
 theorem StackTable.indexFor_spec (t : StackTable) (pre : Option Nat) (frame nFrames : Nat)
     (h : StInv nFrames t) (hp : ∀ p, pre = some p → p < t.prefixes.length) (hf : frame < nFrames) :
     StInv nFrames (t.indexFor pre frame).1 ∧
     (t.indexFor pre frame).2 < (t.indexFor pre frame).1.prefixes.length ∧
     t.prefixes.length ≤ (t.indexFor pre frame).1.prefixes.length := by
-  obtain ⟨a1, a2, a3, a4⟩ := h
+  obtain ⟨a1, a2, a3, a4, hc⟩ := h
   unfold StackTable.indexFor
-  split
-  · rename_i s hs
-    exact ⟨⟨a1, a2, a3, a4⟩, a4.lookup hs, Nat.le_refl _⟩
-  · refine ⟨⟨by simp [a1], a2.append_one hf, ?_, ?_⟩, by simp, by simp⟩
+  cases hl : alookup t.index (pre, frame) with
+  | some s => exact ⟨⟨a1, a2, a3, a4, hc⟩, a4.lookup hl, Nat.le_refl _⟩
+  | none =>
+    simp only
+    refine ⟨⟨by simp [a1], a2.append_one hf, ?_, ?_, ?_, ?_⟩, by simp, by simp⟩
     · intro i p hip
       by_cases hi : i < t.prefixes.length
       · rw [List.getElem?_append_left hi] at hip
@@ -345,5 +367,36 @@ theorem StackTable.indexFor_spec (t : StackTable) (pre : Option Nat) (frame nFra
       rcases hkv with rfl | hkv
       · simp
       · have := a4 kv hkv; simp; omega
+    · intro kv hkv
+      simp only [List.mem_cons] at hkv
+      rcases hkv with rfl | hkv
+      · simp [a1]
+      · have hv := a4 kv hkv
+        obtain ⟨h1, h2⟩ := hc.1 kv hkv
+        rw [List.getElem?_append_left hv, List.getElem?_append_left (by omega)]
+        exact ⟨h1, h2⟩
+    · intro v pre' f' hp' hf'
+      simp only [alookup]
+      by_cases hv : v < t.prefixes.length
+      · rw [List.getElem?_append_left hv] at hp'
+        rw [List.getElem?_append_left (by omega)] at hf'
+        have hold := hc.2 v pre' f' hp' hf'
+        split
+        · rename_i he
+          rw [← he, hl] at hold
+          cases hold
+        · exact hold
+      · have hv' : t.prefixes.length ≤ v := by omega
+        rw [List.getElem?_append_right hv'] at hp'
+        rw [List.getElem?_append_right (by omega)] at hf'
+        cases hk : v - t.prefixes.length with
+        | zero =>
+          rw [hk] at hp'
+          rw [a1, hk] at hf'
+          simp only [List.getElem?_cons_zero, Option.some.injEq] at hp' hf'
+          subst hp'; subst hf'
+          have : v = t.prefixes.length := by omega
+          simp [this]
+        | succ k => rw [hk] at hp'; simp at hp'
 
 end PT
